@@ -126,6 +126,9 @@ pub(crate) fn enable_active_connect(peer: &mut Peer, ch: mpsc::UnboundedSender<T
 fn plan(property: &str) -> BatchPlan {
     match property {
         "C04" => BatchPlan { quick_runs: 10_000, thorough_runs: 300_000 },
+        // the budget of a property is shared by its scenarios: 300 000 quick runs for each of them
+        "C18" => BatchPlan { quick_runs: 900_000, thorough_runs: 10_000_000 },
+        "C01" | "C07" | "C19" | "C20" => BatchPlan { quick_runs: 600_000, thorough_runs: 8_000_000 },
         _ => BatchPlan { quick_runs: 300_000, thorough_runs: 5_000_000 },
     }
 }
